@@ -29,7 +29,7 @@ inductive Pump where
   | tmo2 (r : Bool)                -- next: `Peek` + `GetPendingRequest(head)`
   | tmo3 (r : Bool) (h : Nat)      -- next: `CompleteRequest(h)`
   | tcb (r : Bool) (h : Nat)       -- next: the cancel callback (time-out), then the timer is re-armed
-deriving Repr, DecidableEq
+deriving Repr, DecidableEq, Hashable
 
 inductive Reader where
   | idle
@@ -37,12 +37,12 @@ inductive Reader where
   | compl (id : Nat)               -- pending check passed: next `CompleteRequest(id)` (atomic part)
   | sig (id : Nat)                 -- popped and deleted: next post the ready token
   | handler (id : Nat)             -- next: the response handler
-deriving Repr, DecidableEq
+deriving Repr, DecidableEq, Hashable
 
 inductive Link where
   | idle
   | resuming                       -- `Resume`: `paused = false` done, next `HasPendingRequest()` + token / timer
-deriving Repr, DecidableEq
+deriving Repr, DecidableEq, Hashable
 
 structure St where
   pendFirst : Bool := true
@@ -58,7 +58,7 @@ structure St where
   used   : List Nat := []          -- ghost: every id ever pushed (ids are fresh: A-ID)
   wire   : List Nat := []          -- ghost: CALLs written, in order
   crash  : Bool := false           -- `Peek` returned nil and the bundle was dereferenced
-deriving Repr, DecidableEq
+deriving Repr, DecidableEq, Hashable
 
 inductive Label where
   | push (id : Nat)                -- a sender's `requestQueue.Push`
